@@ -212,6 +212,15 @@ func (r *Report) Finish(verifDir string, known *KnownFindings) int {
 		"floors":              r.Floors,
 		"all_obligations":     r.Obs,
 	}
+	if r.Tier == "thorough" {
+		// embed the checker self-test for this property if run.sh just produced it
+		if b, err := os.ReadFile(filepath.Join(verifDir, "selftest", "result-"+r.Prop+".json")); err == nil {
+			var st map[string]any
+			if json.Unmarshal(b, &st) == nil {
+				cov["checker_self_test"] = st
+			}
+		}
+	}
 	ev := map[string]any{
 		"property_id": r.Prop,
 		"tier":        r.Tier,
